@@ -24,8 +24,25 @@ pub mod context { pub use super::Context; }
 
 // ---------- registry views (A4: frozen during one parse / evaluation; A5: the pinned primitives are one HashMap lookup / insert under a lock) ----------
 pub uninterp spec fn reg_cfg(op: Seq<char>) -> Option<InfixOpConfig>;
-pub uninterp spec fn reg_prefix(op: Seq<char>) -> bool;
-pub uninterp spec fn reg_postfix(op: Seq<char>) -> bool;
+pub uninterp spec fn reg_prefix_h(op: Seq<char>) -> Option<Arc<PrefixOpFunc>>;
+pub uninterp spec fn reg_postfix_h(op: Seq<char>) -> Option<Arc<PostfixOpFunc>>;
+pub uninterp spec fn reg_func_h(name: Seq<char>) -> Option<Arc<InnerFunction>>;
+pub open spec fn reg_prefix(op: Seq<char>) -> bool { reg_prefix_h(op) is Some }
+pub open spec fn reg_postfix(op: Seq<char>) -> bool { reg_postfix_h(op) is Some }
+// rule 30: `self.store.lock().unwrap()` becomes `self.vx_lock()`; the guard is modelled as a shared reference to the locked
+// HashMap<String, V>, whose content is the registry view (A4: frozen during one parse / evaluation)
+#[verifier::external_body] #[verifier::reject_recursive_types(V)] pub struct VxMap<V> { x: Vec<V> }
+impl<V> VxMap<V> {
+    pub uninterp spec fn map(&self) -> Map<Seq<char>, V>;
+    // trusted: HashMap<String, V>::get::<str>
+    #[verifier::external_body] pub fn get(&self, k: &str) -> (r: Option<&V>)
+        ensures r == (if self.map().dom().contains(k@) { Some(&self.map()[k@]) } else { None::<&V> }) { unimplemented!() }
+}
+// rule 17: String::from(&str) cannot be given a specification directly (nested lifetime binder)
+#[verifier::external_body] pub fn vx_string_from(s: &str) -> (r: String) ensures r@ == s@ { String::from(s) }
+pub open spec fn holds<V>(m: Map<Seq<char>, V>, f: spec_fn(Seq<char>) -> Option<V>) -> bool {
+    forall|k: Seq<char>| (#[trigger] m.dom().contains(k)) == (f(k) is Some) && (m.dom().contains(k) ==> m[k] == f(k).unwrap())
+}
 pub open spec fn reg_infix(op: Seq<char>) -> bool { reg_cfg(op) is Some }
 // documented domain of precedences: 0 < p <= 10^9 (required of every registration, see register_infix_op)
 pub broadcast axiom fn axiom_domain(op: Seq<char>) ensures #[trigger] reg_cfg(op) matches Some(c) ==> 0 < c.0 <= 1_000_000_000;
@@ -38,17 +55,21 @@ pub struct InfixOpManager {}
 pub struct PrefixOpManager {}
 pub struct PostfixOpManager {}
 pub struct InnerFunctionManager {}
+impl InfixOpManager {
+    #[verifier::external_body] pub fn vx_lock(&self) -> (r: &VxMap<InfixOpConfig>) ensures holds(r.map(), |k: Seq<char>| reg_cfg(k)) { unimplemented!() }
+}
 impl PrefixOpManager {
+    #[verifier::external_body] pub fn vx_lock(&self) -> (r: &VxMap<Arc<PrefixOpFunc>>) ensures holds(r.map(), |k: Seq<char>| reg_prefix_h(k)) { unimplemented!() }
     #[verifier::external_body] pub fn new() -> Self { unimplemented!() }
-    #[verifier::external_body] pub fn exist(&self, op: &str) -> (r: bool) ensures r == reg_prefix(op@) { unimplemented!() }
     #[verifier::external_body] pub fn register(&mut self, op: &str, f: Arc<PrefixOpFunc>) requires inited() { unimplemented!() }
 }
 impl PostfixOpManager {
+    #[verifier::external_body] pub fn vx_lock(&self) -> (r: &VxMap<Arc<PostfixOpFunc>>) ensures holds(r.map(), |k: Seq<char>| reg_postfix_h(k)) { unimplemented!() }
     #[verifier::external_body] pub fn new() -> Self { unimplemented!() }
-    #[verifier::external_body] pub fn exist(&self, op: &str) -> (r: bool) ensures r == reg_postfix(op@) { unimplemented!() }
     #[verifier::external_body] pub fn register(&mut self, op: &str, f: Arc<PostfixOpFunc>) requires inited() { unimplemented!() }
 }
 impl InnerFunctionManager {
+    #[verifier::external_body] pub fn vx_lock(&self) -> (r: &VxMap<Arc<InnerFunction>>) ensures holds(r.map(), |k: Seq<char>| reg_func_h(k)) { unimplemented!() }
     #[verifier::external_body] pub fn new() -> Self { unimplemented!() }
     #[verifier::external_body] pub fn register(&mut self, name: &str, f: Arc<InnerFunction>) requires inited() { unimplemented!() }
 }
